@@ -35,6 +35,7 @@ class TimeModel(object):
         self.sites = set()
         self.app_closed = False
         self.partial = 0          # bytes of the trickled text frame delivered so far (0 = none in progress)
+        self.trickle = None       # (delay) once the environment has decided to keep the socket readable for ever
 
     # ------------------------------------------------------------------ helpers
     def now(self, world):
@@ -59,7 +60,7 @@ class TimeModel(object):
         self.writes_seen = len(world.writes)
 
     def monitor_state(self):
-        return (self.arrivals, self.partial, tuple(self.polls[-1:]), tuple(self.pings[-2:]), self.pongs[-1], self.close_sent, self.server_close,
+        return (self.arrivals, self.partial, self.trickle, tuple(self.polls[-1:]), tuple(self.pings[-2:]), self.pongs[-1], self.close_sent, self.server_close,
                 self.ended, self.unresponsive, bool(self.problems), self.app_closed)
 
     # ------------------------------------------------------------------ environment
@@ -71,6 +72,15 @@ class TimeModel(object):
             return W.Data(W.HANDSHAKE(), delay=self.cfg.get('hs_delay', 0))
         tau = self.now(world)
         self.check_deadlines(tau, final=False)
+        if self.trickle is not None and self.ended is None:
+            # one byte of a frame that never completes, every `trickle` time units until the horizon: the socket is readable at
+            # every wake-up, no wait ever times out, and still every timer must fire on time
+            self.trickle_sent += 1
+            if tau >= self.H:
+                self.trickle = None
+            else:
+                self.trace.append('trickle@%s' % tau)
+                return W.Data(b'\x82\x7e\x03\xe8' if self.trickle_sent == 1 else b't', delay=self.trickle)
         menu = ['eof']
         if self.ended is None:
             if tau < self.H:
@@ -83,6 +93,9 @@ class TimeModel(object):
                             continue
                         for d in range(self.p):
                             menu.append((kind, d))
+                    if not self.partial and self.cfg.get('trickle') and self.server_close is None:
+                        for d in range(1, self.p):
+                            menu.append(('trickle', d))
         if self.ex is not None:
             h = canon.state_hash(world._ws, world, extra=self.monitor_state(), timers='absolute')
             self.ex.quiescent(h)
@@ -97,6 +110,11 @@ class TimeModel(object):
         if m == ('silence',):
             return W.Silence()
         kind, d = m
+        if kind == 'trickle':
+            self.trickle, self.trickle_sent = d, 1
+            self.arrivals = self.max_arrivals
+            self.sites.add('trickle')
+            return W.Data(b'\x82\x7e\x03\xe8', delay=d)
         self.arrivals += 1
         self.sites.add('arrival:' + kind)
         if kind == 'eof':
@@ -291,6 +309,9 @@ class C15(F.Check):
             h = min(2 * p + max(r, p) + (t or 0) + (c or 0), 14 if tier == 'thorough' else 12)
             for app_close in (False, True):
                 jobs.append({'p': p, 'r': r, 't': t, 'c': c, 'horizon': h, 'arrivals': 3 if tier == 'thorough' else 2, 'app_close': app_close})
+            if r or t or c:
+                # the socket stays readable for ever (a frame that trickles in): timers must not depend on a wait timing out
+                jobs.append({'p': p, 'r': r, 't': t, 'c': c, 'horizon': h, 'arrivals': 1, 'app_close': bool(c), 'trickle': True})
             if (r or t) and (tier == 'quick' or p == 2):
                 # the same with a slow opening handshake (not a multiple of poll or ping_rate), fewer arrivals
                 jobs.append({'p': p, 'r': r, 't': t, 'c': c, 'horizon': h, 'arrivals': 1 if tier == 'quick' else 2, 'app_close': False,
